@@ -61,7 +61,7 @@ def writerSession (f : List String) : IO String := do
         let (w', e) := FrameW.apply w opts
         w := w'; res := res.push (errName e)
       | ["w", d] =>
-        let (w', n, e) := FrameW.write w (parseData d)
+        let (w', n, e) := FrameW.write w (← loadBlob d)
         w := w'; res := res.push s!"{n}/{errName e}"
       | ["f"] => let (w', e) := FrameW.flush w; w := w'; res := res.push (errName e)
       | ["c"] => let (w', e) := FrameW.close w; w := w'; res := res.push (errName e)
@@ -69,7 +69,7 @@ def writerSession (f : List String) : IO String := do
         sinks := sinks.push (sinkSummary w.sink)
         w := FrameW.reset w (optNat fa); res := res.push "-"
       | ["rf", d, chunk, fa, ewd] =>
-        let src : Source := { data := parseData d, chunk := chunk.toNat!, failAt := optNat fa, eofWithData := ewd == "1" }
+        let src : Source := { data := (← loadBlob d), chunk := chunk.toNat!, failAt := optNat fa, eofWithData := ewd == "1" }
         let (w', _, n, e) := FrameW.readFrom w src
         w := w'; res := res.push s!"{n}/{errName e}"
       | _ => res := res.push "bad-op"
@@ -110,27 +110,53 @@ def readerSession (f : List String) : IO String := do
     pure s!"{" ".intercalate res.toList} ; consumed={r.src.pos}"
   | _ => pure "bad-op"
 
-/-- `CR <opts|-> <data> <chunk> <failAt> <eofWithData> <size>…`: the compressing reader read with the
-given buffer sizes (the last size is repeated until io.EOF or an error, at most 100000 calls) -/
-def crSession (f : List String) : String :=
+/-- `CR <opts|-> <data> <chunk> <failAt> <eofWithData> <tok>…`: the compressing reader.
+`<size>` = one `Read` with a buffer of that length; `A=<opts>` = Apply; `R=<data>:<chunk>:<failAt>:<ewd>` =
+Reset onto a new source.  The last size is repeated until io.EOF or an error (at most 100000 calls); once
+a Read of a session returned an error the remaining sizes of that session are skipped. -/
+def crSession (f : List String) : IO String := do
   match f with
-  | o :: d :: chunk :: fa :: ewd :: sizes =>
-    let src : Source := { data := parseData d, chunk := chunk.toNat!, failAt := optNat fa, eofWithData := ewd == "1" }
-    let c0 := CReader.new src
+  | o :: d :: chunk :: fa :: ewd :: toks =>
+    let mkSrc (d : Array UInt8) (chunk fa ewd : String) : Source :=
+      { data := d, chunk := chunk.toNat!, failAt := optNat fa, eofWithData := ewd == "1" }
+    let c0 := CReader.new (mkSrc (← loadBlob d) chunk fa ewd)
     let (c1, ae) := if o == "-" then (c0, none) else CReader.apply c0 (parseOpts o).1
-    let szs := sizes.map String.toNat!
-    let rec go (c : CReader.CR) (szs : List Nat) (last : Nat) (res : Array String) (total : Nat) : Nat → Array String × Nat
-      | 0 => (res, total)
-      | fuel+1 =>
-        let (n, rest) := match szs with | [] => (last, []) | x :: xs => (x, xs)
-        let (c, out, e) := CReader.read c n
-        let res := if res.size < 60 then res.push s!"{out.size}/{fnv out out.size}/{errName e}" else res
-        match e with
-        | some _ => (res, total + out.size)
-        | none => if n = 0 ∧ rest.isEmpty then (res, total) else go c rest n res (total + out.size) fuel
-    let (res, total) := go c1 szs 0 #[] 0 100000
-    s!"{errName ae} {" ".intercalate res.toList} ; total={total}"
-  | _ => "bad-op"
+    let mut c := c1
+    let mut res : Array String := #[]
+    let mut total := 0
+    let mut ended := false
+    let mut last := 0
+    let mut hadReads := false
+    for t in toks do
+      if t.startsWith "R=" then
+        match ((t.drop 2).toString).splitOn ":" with
+        | [d, chunk, fa, ewd] =>
+          c := CReader.reset c (mkSrc (← loadBlob d) chunk fa ewd)
+          res := res.push "-"
+          ended := false; last := 0; hadReads := false
+        | _ => res := res.push "bad-op"
+      else if t.startsWith "A=" then
+        let (c', e) := CReader.apply c (parseOpts (t.drop 2).toString).1
+        c := c'; res := res.push (errName e)
+      else
+        let n := t.toNat!
+        hadReads := true; last := n
+        if !ended then
+          let (c', out, e) := CReader.read c n
+          c := c'
+          if res.size < 60 then res := res.push s!"{out.size}/{fnv out out.size}/{errName e}"
+          total := total + out.size
+          if e.isSome then ended := true
+    if hadReads && !ended && last > 0 then
+      for _ in [0:100000] do
+        if ended then break
+        let (c', out, e) := CReader.read c last
+        c := c'
+        if res.size < 60 then res := res.push s!"{out.size}/{fnv out out.size}/{errName e}"
+        total := total + out.size
+        if e.isSome then ended := true
+    pure s!"{errName ae} {" ".intercalate res.toList} ; total={total}"
+  | _ => pure "bad-op"
 
 /-- `HD flg bd sz mode`: the header-acceptance table of C19 as the model predicts it -/
 def hdSession (f : List String) : String :=
@@ -156,6 +182,24 @@ def hdSession (f : List String) : String :=
     let order := ["ok", "badhdrck", "badblksize", "badmagic", "unexpEOF", "eof"]
     let ws := (order.filter wrong.contains).foldl (fun s k => s ++ k ++ ",") ""
     s!"acc={acc} wrong={ws} size={size}"
+  | _ => "bad-op"
+
+/-- `HM word`: a first word, a skip length of 4, four bytes and an empty frame: what `ValidFrameHeader`
+and the first `Read` answer -/
+def hmSession (f : List String) : String :=
+  match f with
+  | [ws] =>
+    let d : Array UInt8 := #[0x60, 0x40]
+    let empty := FrameW.le32 Gen.frameMagic ++ d ++ #[((XXH.checksumZero d.toList).toNat / 256 % 256).toUInt8, 0, 0, 0, 0]
+    let inp := FrameW.le32 ws.toNat! ++ FrameW.le32 4 ++ #[9, 8, 7, 6] ++ empty
+    let (_, e) := FrameR.parseHeaders (FrameR.new { data := inp }) (inp.size + 2)
+    -- ValidFrameHeader: ErrInvalidFrame becomes (false, nil)
+    let vfh := match e with
+      | none => "true/ok"
+      | some .badMagic => "false/ok"
+      | some e => s!"false/{e.name}"
+    let (_, out, e2) := FrameR.read (FrameR.new { data := inp }) 16
+    s!"vfh={vfh} read={out.size}/{errName e2}"
   | _ => "bad-op"
 
 end Lz4V.Session
